@@ -159,6 +159,9 @@ pub enum Source {
     Paced(Vec<u64>),
     /// the real `MarketDataInMemory`
     InMemory,
+    /// harness paced source whose pacing differs per concurrent member: the k-th `stream()` call of a
+    /// batch (= member k on the current-thread runtime) is paced with `delays[k]`
+    PacedPerMember(Vec<Vec<u64>>),
 }
 
 #[derive(Debug, Clone, Serialize, Deserialize)]
@@ -199,6 +202,11 @@ pub struct Fill {
     price: String,
     quantity: String,
     fee: String,
+    /// exchange time of the fill in whole hours since the first dataset event. Dataset events are one hour
+    /// apart and a backtest's clock sits a few wall-clock micro/milliseconds after the last market event
+    /// ITS engine processed, so this is the index of that event - a coarse, timing-robust view of the
+    /// timestamp that still shows a fill stamped by another backtest's clock.
+    hour: i64,
 }
 
 /// `GlobalData` of the engine state: engine-local log of what the engine processed.
@@ -233,6 +241,7 @@ impl<'a> Processor<&'a AccountEvent> for RecGlobal {
                 price: t.price.normalize().to_string(),
                 quantity: t.quantity.normalize().to_string(),
                 fee: t.fees.fees.normalize().to_string(),
+                hour: t.time_exchange.signed_duration_since(t_event(0)).num_hours(),
             });
         }
     }
@@ -389,6 +398,7 @@ type MEvent = MarketStreamEvent<InstrumentIndex, DataKind>;
 pub enum Data {
     Paced { events: Arc<Vec<MEvent>>, delays: Arc<Vec<u64>> },
     InMemory(MarketDataInMemory<DataKind>),
+    PacedMulti { events: Arc<Vec<MEvent>>, delays: Arc<Vec<Vec<u64>>>, next: Arc<std::sync::atomic::AtomicUsize> },
 }
 
 impl BacktestMarketData for Data {
@@ -396,7 +406,7 @@ impl BacktestMarketData for Data {
 
     async fn time_first_event(&self) -> Result<DateTime<Utc>, BarterError> {
         match self {
-            Data::Paced { .. } => Ok(t_event(0)),
+            Data::Paced { .. } | Data::PacedMulti { .. } => Ok(t_event(0)),
             Data::InMemory(m) => m.time_first_event().await,
         }
     }
@@ -420,6 +430,23 @@ impl BacktestMarketData for Data {
                 .boxed()
             }
             Data::InMemory(m) => m.stream().await?.boxed(),
+            Data::PacedMulti { events, delays, next } => {
+                let k = next.fetch_add(1, Ordering::SeqCst);
+                let events = Arc::clone(events);
+                let delays = Arc::new(delays[k % delays.len()].clone());
+                futures::stream::unfold(0usize, move |i| {
+                    let events = Arc::clone(&events);
+                    let delays = Arc::clone(&delays);
+                    async move {
+                        let w = delays[i];
+                        if w > 0 {
+                            tokio::time::sleep(std::time::Duration::from_millis(w)).await;
+                        }
+                        if i < events.len() { Some((events[i].clone(), i + 1)) } else { None }
+                    }
+                })
+                .boxed()
+            }
         };
         Ok(s)
     }
@@ -524,6 +551,10 @@ fn constants(instr: &[usize], source: &Source, latency_ms: u64) -> Args {
             Data::Paced { events, delays: Arc::new(delays.clone()) }
         }
         Source::InMemory => Data::InMemory(MarketDataInMemory::new(events)),
+        Source::PacedPerMember(delays) => {
+            assert!(delays.iter().all(|d| d.len() == instr.len() + 1), "pacing vectors have n+1 entries");
+            Data::PacedMulti { events, delays: Arc::new(delays.clone()), next: Arc::new(std::sync::atomic::AtomicUsize::new(0)) }
+        }
     };
     let balance = |asset: &str, amount: Decimal| AssetBalance {
         asset: AssetNameExchange::new(asset),
@@ -638,6 +669,7 @@ fn source_kind(s: &Source) -> &'static str {
     match s {
         Source::Paced(_) => "paced",
         Source::InMemory => "in-memory",
+        Source::PacedPerMember(_) => "paced-per-member",
     }
 }
 
@@ -714,7 +746,14 @@ fn rule_isolation(prefix: &str, got: &MemberOutcome, reference: &MemberOutcome, 
     let (g, r) = (&got.record, &reference.record);
     let found: Option<(&str, String, String)> = if g.fills != r.fills {
         // exchange-assigned ids are part of a fill, but a difference in ids only gets its own cause
-        let field = if strip(&g.fills) == strip(&r.fills) { "fill-ids" } else { "fills" };
+        let no_hour = |v: &[Fill]| v.iter().map(|f| Fill { hour: 0, ..f.clone() }).collect::<Vec<_>>();
+        let field = if no_hour(&g.fills) == no_hour(&r.fills) {
+            "fill-exchange-times"
+        } else if strip(&g.fills) == strip(&r.fills) {
+            "fill-ids"
+        } else {
+            "fills"
+        };
         Some((field, format!("{:?}", g.fills), format!("{:?}", r.fills)))
     } else if g.positions != r.positions {
         Some(("final-positions", format!("{:?}", g.positions), format!("{:?}", r.positions)))
@@ -897,6 +936,10 @@ fn check_case_serial(case: &Case, verbose: bool) -> Vec<Viol> {
     let stats = Stats::default();
     let distinct = Distinct::default();
     let mut out = Vec::new();
+    if let Source::PacedPerMember(delays) = &case.source {
+        check_hetero(&case.instr, delays, &case.members, &stats, &distinct, &mut out);
+        return out;
+    }
     let mut refs = BTreeMap::new();
     for s in case.members.iter().collect::<std::collections::BTreeSet<_>>() {
         if let Some(r) = reference(&case.instr, &case.source, *s, &stats, &distinct, &mut out) {
@@ -1120,6 +1163,86 @@ fn long_datasets(ctx: &Ctx) -> Value {
     })
 }
 
+/// One batch whose members are paced differently, each compared with itself run alone under its own pacing.
+fn check_hetero(instr: &[usize], delays: &[Vec<u64>], members: &[Strat], stats: &Stats, distinct: &Distinct, out: &mut Vec<Viol>) {
+    let source = Source::PacedPerMember(delays.to_vec());
+    let ctxs = format!("batch instr={instr:?} per-member pacing={delays:?} members={members:?}");
+    stats.executions.fetch_add(1, Ordering::Relaxed);
+    stats.batch_runs.fetch_add(1, Ordering::Relaxed);
+    let outcomes = match execute(instr, &source, members, Mode::Batch) {
+        Ok(v) => v,
+        Err((kind, text)) => {
+            out.push((format!("C20/R1-completeness-order/backtest-failed/{kind}"), format!("{ctxs}: {text}")));
+            return;
+        }
+    };
+    let want = expected_log(instr);
+    for (i, o) in outcomes.iter().enumerate() {
+        stats.note(o);
+        distinct.add(&o.essence());
+        let c = format!("{ctxs} member={i}");
+        rule_completeness(&want, &o.record.market, &source, &c, out);
+        rule_own_summary(i, o, &c, out);
+        stats.executions.fetch_add(1, Ordering::Relaxed);
+        match execute(instr, &Source::Paced(delays[i].clone()), &[members[i]], Mode::Alone) {
+            Ok(mut alone) => {
+                stats.oracle_evals.fetch_add(3, Ordering::Relaxed);
+                let mut tmp = Vec::new();
+                rule_isolation("R2-isolation-concurrent", o, &alone.remove(0), &c, &mut tmp);
+                out.extend(tmp.into_iter().map(|(s, d)| (format!("{s}/members-paced-differently"), d)));
+            }
+            Err((kind, text)) => out.push((format!("C20/R1-completeness-order/backtest-failed/{kind}"), format!("{c} alone: {text}"))),
+        }
+    }
+}
+
+/// Heterogeneous pacing: concurrent members that are NOT in lock-step (the `task interleavings` dimension of
+/// the statement on a single thread): every dataset of n events x every ordered pair of pacing vectors x
+/// every ordered pair of strategies; each member must equal itself alone under its own pacing.
+fn hetero_pacing(ctx: &Ctx, stats: &Stats, distinct: &Distinct) -> Value {
+    use rayon::prelude::*;
+    let n_h = ctx.tier.pick(2usize, 3usize);
+    let mut units: Vec<(Vec<usize>, Vec<u64>, Vec<u64>)> = Vec::new();
+    for n in 1..=n_h {
+        let pacings: Vec<Vec<u64>> = product(&MENU_QUICK, n + 1).into_iter().filter(|p| p[0] > 0).collect();
+        for instr in product(&[0usize, 1usize], n) {
+            for p0 in &pacings {
+                for p1 in &pacings {
+                    if p0 != p1 {
+                        units.push((instr.clone(), p0.clone(), p1.clone()));
+                    }
+                }
+            }
+        }
+    }
+    let batches = AtomicU64::new(0);
+    let viols: Vec<(Viol, Value)> = units
+        .par_iter()
+        .flat_map_iter(|(instr, p0, p1)| {
+            let n = instr.len();
+            let strats = strategies(n);
+            let mut found = Vec::new();
+            for s0 in &strats {
+                for s1 in &strats {
+                    let mut out = Vec::new();
+                    let delays = vec![p0.clone(), p1.clone()];
+                    check_hetero(instr, &delays, &[*s0, *s1], stats, distinct, &mut out);
+                    batches.fetch_add(1, Ordering::Relaxed);
+                    for v in out {
+                        found.push((v, case_json(instr, &Source::PacedPerMember(delays.clone()), &[*s0, *s1])));
+                    }
+                }
+            }
+            found
+        })
+        .collect();
+    for ((sig, detail), case) in viols {
+        ctx.violate(sig, detail, case);
+    }
+    json!({"max_events": n_h, "units_dataset_x_pacing_pair": units.len(), "batches": batches.load(Ordering::Relaxed),
+        "rule": "N=2 members with different pacing vectors (all ordered pairs from the menu), all ordered strategy pairs; each member == itself alone under its own pacing"})
+}
+
 pub fn run(ctx: &Ctx) -> Outcome {
     let n_max = ctx.tier.pick(3usize, 4usize);
     // thorough: the 4-value menu (with burst delay 0) for n <= 3, the 3-value menu at n = 4
@@ -1231,6 +1354,7 @@ pub fn run(ctx: &Ctx) -> Outcome {
         samples.offer(|| json!({"case": case_json(instr, source, &members), "observed": observed}));
     }
 
+    let hetero = hetero_pacing(ctx, &stats, &distinct);
     let long = long_datasets(ctx);
     let smoke = mt_smoke(ctx);
 
@@ -1270,6 +1394,7 @@ pub fn run(ctx: &Ctx) -> Outcome {
             "exhaustive": true,
             "rule": "every dataset (instrument pattern) x every pacing vector (menu^(n+1)) + real MarketDataInMemory x every ordered assignment of strategies to N in {1,2,3} members, each executed by the real backtest()/run_backtests() on a paused current-thread runtime; R1 completeness/order, R2 member-in-batch == same member alone (and alone twice), R3 summary is its own engine's",
             "samples": samples.take(),
+            "heterogeneous_pacing_layer": hetero,
             "long_dataset_layer": long,
             "auxiliary_multithread_smoke": smoke,
         }),
